@@ -14,6 +14,31 @@ use ops::*;
 use std::io::{BufRead, Write};
 use std::panic::{catch_unwind, AssertUnwindSafe};
 
+// ---------- counting allocator (C19) ----------
+use std::alloc::{GlobalAlloc, Layout, System};
+use std::sync::atomic::{AtomicIsize, AtomicUsize, Ordering};
+pub static N_ALLOCS: AtomicUsize = AtomicUsize::new(0);
+pub static LIVE_BYTES: AtomicIsize = AtomicIsize::new(0);
+struct CountingAlloc;
+unsafe impl GlobalAlloc for CountingAlloc {
+    unsafe fn alloc(&self, l: Layout) -> *mut u8 {
+        N_ALLOCS.fetch_add(1, Ordering::Relaxed);
+        LIVE_BYTES.fetch_add(l.size() as isize, Ordering::Relaxed);
+        System.alloc(l)
+    }
+    unsafe fn dealloc(&self, p: *mut u8, l: Layout) {
+        LIVE_BYTES.fetch_sub(l.size() as isize, Ordering::Relaxed);
+        System.dealloc(p, l)
+    }
+    unsafe fn realloc(&self, p: *mut u8, l: Layout, new_size: usize) -> *mut u8 {
+        N_ALLOCS.fetch_add(1, Ordering::Relaxed);
+        LIVE_BYTES.fetch_add(new_size as isize - l.size() as isize, Ordering::Relaxed);
+        System.realloc(p, l, new_size)
+    }
+}
+#[global_allocator]
+static GLOBAL: CountingAlloc = CountingAlloc;
+
 struct SinkLogger;
 impl log::Log for SinkLogger {
     fn enabled(&self, _: &log::Metadata<'_>) -> bool {
@@ -238,6 +263,67 @@ fn op_cuts(cfg: &str, stream: &[u8], masks: &str) -> String {
     out.join(",")
 }
 
+/// `steady <cfg> <warm-up> <steady push>…`: heap allocations performed by each steady-state push
+/// (application callbacks in quiet mode allocate nothing, the log level is Off as in a build
+/// without a logger), and slices delivered that do not lie inside the pushed buffer
+fn op_steady(cfg: &str, pushes: &[Vec<u8>]) -> String {
+    let cfg = match app::parse_cfg(cfg) {
+        Some(c) => c,
+        None => return "bad-op".into(),
+    };
+    let mut all: Vec<u8> = vec![];
+    for p in pushes {
+        all.extend_from_slice(p);
+    }
+    let mut ctx = app::HCtx::new(cfg, all.as_ptr() as usize, all.len());
+    ctx.quiet = true;
+    log::set_max_level(log::LevelFilter::Off);
+    let mut d = Demultiplex::new(&mut ctx);
+    let mut off = 0;
+    let mut counts = vec![];
+    let mut constructs = vec![];
+    for (i, p) in pushes.iter().enumerate() {
+        let c0 = ctx.n_construct;
+        let a0 = N_ALLOCS.load(Ordering::Relaxed);
+        d.push(&mut ctx, &all[off..off + p.len()]);
+        let a1 = N_ALLOCS.load(Ordering::Relaxed);
+        off += p.len();
+        if i > 0 {
+            counts.push(a1 - a0);
+            constructs.push(ctx.n_construct - c0);
+        }
+    }
+    log::set_max_level(log::LevelFilter::Trace);
+    let s = |v: &Vec<usize>| v.iter().map(|x| x.to_string()).collect::<Vec<_>>().join(",");
+    format!("allocs={} constructs={} copied={}", s(&counts), s(&constructs), ctx.n_copied)
+}
+
+/// `retain <cfg> <block> <rounds>`: push the same block `rounds` times; live heap bytes must reach a
+/// plateau (retained memory independent of input length)
+fn op_retain(cfg: &str, block: &[u8], rounds: usize) -> String {
+    let cfg = match app::parse_cfg(cfg) {
+        Some(c) => c,
+        None => return "bad-op".into(),
+    };
+    let mut ctx = app::HCtx::new(cfg, block.as_ptr() as usize, block.len());
+    ctx.quiet = true;
+    log::set_max_level(log::LevelFilter::Off);
+    let mut d = Demultiplex::new(&mut ctx);
+    let mut live = vec![];
+    for _ in 0..rounds {
+        d.push(&mut ctx, block);
+        live.push(LIVE_BYTES.load(Ordering::Relaxed));
+    }
+    log::set_max_level(log::LevelFilter::Trace);
+    let half = live[rounds / 2];
+    let last = live[rounds - 1];
+    if last <= half {
+        "plateau".into()
+    } else {
+        format!("grow:{}", last - half)
+    }
+}
+
 fn step(rest: &str) -> String {
     let mut it = rest.split(' ');
     let op = it.next().unwrap_or("");
@@ -269,6 +355,11 @@ fn step(rest: &str) -> String {
             let pk: Vec<Vec<u8>> = args.iter().map(|h| unhex(h)).collect();
             op_pesf(&pk)
         }
+        ("steady", n) if n >= 2 => {
+            let pk: Vec<Vec<u8>> = args[1..].iter().map(|h| unhex(h)).collect();
+            op_steady(args[0], &pk)
+        }
+        ("retain", 3) => op_retain(args[0], &unhex(args[1]), args[2].parse::<usize>().unwrap_or(8).max(2)),
         ("cuts", 3) => op_cuts(args[0], &unhex(args[1]), args[2]),
         ("demux", n) if n >= 1 => {
             let pk: Vec<Vec<u8>> = args[1..].iter().map(|h| unhex(h)).collect();
